@@ -4,6 +4,7 @@ Pipe life model: no deadlock. Once the connection is dead or Close has been call
 caller nor the environment) is enabled as long as a call has not been resolved.
 -/
 import Rv.Lemmas.PipeLifeMeasure
+import Rv.Lemmas.PipeLifeSafe
 namespace Rv.PipeLife
 
 /-- the connection is dead or Close has been called -/
